@@ -12,11 +12,15 @@ static const char* SAMPLES[] = {"tiny", "elf_with_imports"};
 // exact-size heap copy: ASan's red zone right behind the last byte catches any over-read
 struct Exact { uint8_t* p; size_t n; Exact(const std::string& s) : n(s.size()) { p = (uint8_t*) malloc(n ? n : 1); memcpy(p, s.data(), n); } ~Exact() { free(p); } };
 
+// scan flags and timeout under which the entry points are compared (all of them get the same pair; the clock does not move)
+static int g_ep_flags = 0, g_ep_timeout = 0;
+static YR_SCANNER* mk_scanner(YR_RULES* r) { YR_SCANNER* sc = NULL; if (yr_scanner_create(r, &sc) != ERROR_SUCCESS) return NULL; yr_scanner_set_flags(sc, g_ep_flags); yr_scanner_set_timeout(sc, g_ep_timeout); return sc; }
+
 struct Outcome { std::string trace; int rc; std::vector<int> rcs; int calls = 0; bool bad_intermediate = false; std::string note; };
 
 static Outcome scan_mem_ref(YR_RULES* r, const std::string& buf) {
   Outcome o; Recorder rec; Exact e(buf);
-  o.rc = yr_rules_scan_mem(r, e.p, e.n, 0, recorder_callback, &rec, 0); o.trace = rec.text; return o;
+  o.rc = yr_rules_scan_mem(r, e.p, e.n, g_ep_flags, recorder_callback, &rec, g_ep_timeout); o.trace = rec.text; return o;
 }
 
 // a scan through the scanner API over a partition, repeated while the iterator says not-ready
@@ -26,11 +30,11 @@ static Outcome scan_blocks(YR_RULES* r, const std::string& buf, const std::vecto
   BlockIter bi; bi.init(e.p, e.n, parts); bi.nr_target = nr_target; bi.reiter_nr = reiter_nr; bi.fetch_null = fetch_null;
   int budget = 2; for (auto& kv : nr_target) budget += kv.second; budget += (int) reiter_nr.size();
   YR_SCANNER* sc = NULL;
-  if (!rules_api) { if (yr_scanner_create(r, &sc) != ERROR_SUCCESS) { o.rc = -1; o.note = "scanner_create failed"; return o; } yr_scanner_set_callback(sc, recorder_callback, &rec); }
+  if (!rules_api) { if (!(sc = mk_scanner(r))) { o.rc = -1; o.note = "scanner_create failed"; return o; } yr_scanner_set_callback(sc, recorder_callback, &rec); }
   int rc;
   do {
     size_t before = rec.text.size(); int msgs_before = rec.nmsgs;
-    rc = rules_api ? yr_rules_scan_mem_blocks(r, &bi.it, 0, recorder_callback, &rec, 0) : yr_scanner_scan_mem_blocks(sc, &bi.it);
+    rc = rules_api ? yr_rules_scan_mem_blocks(r, &bi.it, g_ep_flags, recorder_callback, &rec, g_ep_timeout) : yr_scanner_scan_mem_blocks(sc, &bi.it);
     o.rcs.push_back(rc); o.calls++;
     if (rc == ERROR_BLOCK_NOT_READY) {
       // an interrupted call must not have reported rules or the end of the scan
@@ -84,7 +88,12 @@ static std::string diff_tag(const std::string& a, const std::string& b) {
 
 struct Case { CompileSpec spec; std::string buf; std::string bufname; };
 
-static void entry_points(const Case& c, YR_RULES* rules, Stats& st, std::set<std::string>& reported, const std::string& only = "") {
+static const int EP_PAIRS[][2] = {{0, 0}, {0, 0}, {SCAN_FLAGS_FAST_MODE, 0}, {SCAN_FLAGS_REPORT_RULES_MATCHING, 10}, {SCAN_FLAGS_REPORT_RULES_NOT_MATCHING, 60}, {0, 10}, {SCAN_FLAGS_FAST_MODE | SCAN_FLAGS_REPORT_RULES_MATCHING, 1000}, {SCAN_FLAGS_REPORT_RULES_MATCHING | SCAN_FLAGS_REPORT_RULES_NOT_MATCHING, 7}};
+static void entry_points(const Case& c, YR_RULES* rules, Stats& st, std::set<std::string>& reported, const std::string& only = "", int pair = -1) {
+  // the (flags, timeout) pair the entry points are compared under: a function of the case, or given by the replay
+  if (pair < 0) { Hash64 hp; hp.add(c.buf); hp.add(c.spec.sources[0].second); pair = (int) (hp.h % 8); }
+  g_ep_flags = EP_PAIRS[pair][0]; g_ep_timeout = EP_PAIRS[pair][1]; st.c["entry.flags_timeout_pair." + std::to_string(pair)]++;
+  struct Reset { ~Reset() { g_ep_flags = 0; g_ep_timeout = 0; } } reset_at_exit;
   Outcome ref = scan_mem_ref(rules, c.buf);
   std::string path = tmp_dir() + "/c13.scan";
   write_file(path, c.buf);
@@ -95,19 +104,19 @@ static void entry_points(const Case& c, YR_RULES* rules, Stats& st, std::set<std
     std::string sig = std::string("entry|") + ep + "|" + (o.rc != ref.rc ? std::string("rc=") + yr_error_name(o.rc) : diff_tag(ref.trace, o.trace));
     st.c["viol.entry-point-disagrees"]++;
     if (!reported.insert(sig).second) return;
-    J rp = J::obj(); rp.set("engine", "sim_blocks"); rp.set("kind", "entry"); rp.set("entry", ep); rp.set("spec", spec_json(c.spec)); rp.set("buffer", buf_json(c.buf));
-    emit_violation("C13", "entry-point-disagrees", sig, std::string(ep) + " vs yr_rules_scan_mem on " + c.bufname + " (" + std::to_string(c.buf.size()) + " bytes): rc " + yr_error_name(o.rc) + " vs " + yr_error_name(ref.rc) + "; " + first_diff(ref.trace, o.trace), rp);
+    J rp = J::obj(); rp.set("engine", "sim_blocks"); rp.set("kind", "entry"); rp.set("entry", ep); rp.set("pair", pair); rp.set("spec", spec_json(c.spec)); rp.set("buffer", buf_json(c.buf));
+    emit_violation("C13", "entry-point-disagrees", sig, std::string(ep) + " (flags " + std::to_string(g_ep_flags) + ", timeout " + std::to_string(g_ep_timeout) + ") vs yr_rules_scan_mem on " + c.bufname + " (" + std::to_string(c.buf.size()) + " bytes): rc " + yr_error_name(o.rc) + " vs " + yr_error_name(ref.rc) + "; " + first_diff(ref.trace, o.trace), rp);
   };
   auto want = [&](const char* ep) { return only.empty() || only == ep || only.rfind(std::string(ep) + "#", 0) == 0; };
-  if (want("scanner_scan_mem")) { Outcome o; Recorder rec; Exact e(c.buf); YR_SCANNER* sc; yr_scanner_create(rules, &sc); yr_scanner_set_callback(sc, recorder_callback, &rec); o.rc = yr_scanner_scan_mem(sc, e.p, e.n); o.trace = rec.text; yr_scanner_destroy(sc); check("scanner_scan_mem", o); }
-  if (want("rules_scan_file")) { Outcome o; Recorder rec; o.rc = yr_rules_scan_file(rules, path.c_str(), 0, recorder_callback, &rec, 0); o.trace = rec.text; check("rules_scan_file", o); }
-  if (want("scanner_scan_file")) { Outcome o; Recorder rec; YR_SCANNER* sc; yr_scanner_create(rules, &sc); yr_scanner_set_callback(sc, recorder_callback, &rec); o.rc = yr_scanner_scan_file(sc, path.c_str()); o.trace = rec.text; yr_scanner_destroy(sc); check("scanner_scan_file", o); }
+  if (want("scanner_scan_mem")) { Outcome o; Recorder rec; Exact e(c.buf); YR_SCANNER* sc = mk_scanner(rules); yr_scanner_set_callback(sc, recorder_callback, &rec); o.rc = yr_scanner_scan_mem(sc, e.p, e.n); o.trace = rec.text; yr_scanner_destroy(sc); check("scanner_scan_mem", o); }
+  if (want("rules_scan_file")) { Outcome o; Recorder rec; o.rc = yr_rules_scan_file(rules, path.c_str(), g_ep_flags, recorder_callback, &rec, g_ep_timeout); o.trace = rec.text; check("rules_scan_file", o); }
+  if (want("scanner_scan_file")) { Outcome o; Recorder rec; YR_SCANNER* sc = mk_scanner(rules); yr_scanner_set_callback(sc, recorder_callback, &rec); o.rc = yr_scanner_scan_file(sc, path.c_str()); o.trace = rec.text; yr_scanner_destroy(sc); check("scanner_scan_file", o); }
   // descriptor entry points: the descriptor stays the caller's (still open afterwards, nothing closed that yara did not
   // open) and can be scanned again with the same result
   auto fd_case = [&](const char* ep, bool scanner_api) {
     int fd = open(path.c_str(), O_RDONLY); int fc0 = g_fs.foreign_closes; g_fs.refuse_foreign_close = true;
-    Outcome o, o2; YR_SCANNER* sc = NULL; if (scanner_api) yr_scanner_create(rules, &sc);
-    for (int round = 0; round < 2; round++) { Recorder rec; Outcome& x = round ? o2 : o; if (sc) { yr_scanner_set_callback(sc, recorder_callback, &rec); x.rc = yr_scanner_scan_fd(sc, fd); } else x.rc = yr_rules_scan_fd(rules, fd, 0, recorder_callback, &rec, 0); x.trace = rec.text; }
+    Outcome o, o2; YR_SCANNER* sc = NULL; if (scanner_api) sc = mk_scanner(rules);
+    for (int round = 0; round < 2; round++) { Recorder rec; Outcome& x = round ? o2 : o; if (sc) { yr_scanner_set_callback(sc, recorder_callback, &rec); x.rc = yr_scanner_scan_fd(sc, fd); } else x.rc = yr_rules_scan_fd(rules, fd, g_ep_flags, recorder_callback, &rec, g_ep_timeout); x.trace = rec.text; }
     if (sc) yr_scanner_destroy(sc);
     g_fs.refuse_foreign_close = false;
     bool still_open = fcntl(fd, F_GETFD) != -1; bool closed_foreign = g_fs.foreign_closes != fc0;
@@ -245,7 +254,7 @@ int main(int argc, char** argv) {
     }
     Case cs; cs.spec = spec_from_json(c["spec"]); cs.buf = buf_from(c["buffer"]); cs.bufname = "replayed buffer";
     CompileResult cr = compile_rules(cs.spec); if (!cr.rules) { fprintf(stderr, "replay: rules do not compile: %s\n", cr.messages.c_str()); return 2; }
-    if (c["kind"].str() == "entry") entry_points(cs, cr.rules, st, reported, c["entry"].str());
+    if (c["kind"].str() == "entry") entry_points(cs, cr.rules, st, reported, c["entry"].str(), c.has("pair") ? (int) c["pair"].num() : 0);
     else {
       auto parts = parts_from(c["partition"]); std::map<int, int> nr; std::set<int64_t> re; std::set<int> fn;
       for (size_t i = 0; i < c["not_ready"].size(); i++) nr[(int) c["not_ready"][i][0].num()] = (int) c["not_ready"][i][1].num();
